@@ -21,7 +21,7 @@
  * already checked in full when it was first explored and replays are deterministic (the engine verifies the
  * canonical hash after the replay), so while replaying a prefix the per-operation result checks stay on but the
  * whole-state oracle (find-all / invariants) and the vacuity counters are skipped; they run for the new
- * operation.  --replay always runs everything.
+ * operation (engine flag esx_in_replay).  --replay always runs everything.
  */
 #include "esx.h"
 #include "galloc.h"
@@ -123,7 +123,6 @@ struct reftab {
 };
 static struct aws_hash_table T[2];
 static struct reftab R[2];
-static int g_hist_len, g_applied;
 static bool g_light;
 
 static int rcount(const struct reftab *r) {
@@ -549,23 +548,13 @@ static void m_reset(void) {
     if (g.pair) table_init(1, 1);
     memset(kd, 0, sizeof(kd));
     memset(vd, 0, sizeof(vd));
-    /* length of the history the engine is about to replay (see "cost device" in the header comment) */
-    const char *c = strchr(v_get_crumb(), ':');
-    g_hist_len = 0;
-    if (c && c[1]) {
-        g_hist_len = 1;
-        for (const char *p = c + 1; *p; ++p)
-            if (*p == '.') ++g_hist_len;
-    }
-    g_applied = 0;
 }
 
 static void m_apply(int op) {
     const struct opd *d = &g_ops[op];
     char nm[96];
     m_opname(op, nm, sizeof(nm));
-    g_light = !v_replay_token && g_applied < g_hist_len;
-    ++g_applied;
+    g_light = esx_in_replay != 0; /* 0 for the new transition and for every step of --replay */
     memset(kd, 0, sizeof(kd));
     memset(vd, 0, sizeof(vd));
     memset(ekd, 0, sizeof(ekd));
